@@ -13,17 +13,51 @@ import cmath
 import math
 import common
 from common import enc, dec, close, err_kind
+from props import c13_hist as hist
 
 ID = "C13"
 RULE = ("dense parameter grids (cut-off/centre in [1e-3, pi-1e-3], bandwidth in [1e-3, 1], delays 1..12, "
         "eta 1..6) for every strategy of lowpass/highpass/resonator/comb/gammatone plus random parameters in the "
-        "same ranges, Stream-valued parameters, erb/gammatone_erb_constants; a case is non-trivial when the "
-        "implementation returned a filter (no exception); distinct = distinct JSON case")
+        "same ranges, Stream-valued parameters, erb/gammatone_erb_constants; "
+        "histories (entry hist, harness/props/c13_hist.py): 1-4 designs of the same or of different strategies built from a "
+        "small heap of parameter objects that they SHARE (one Stream / Stream subclass with its own __iter__ / generator / "
+        "iterator / list / tuple / caller-made tee hub / ControlStream passed to two or three designs; numbers of type int, "
+        "float, Fraction, bool that compare equal, in both orders), builds before or after other designs were used, "
+        "instants taken one at a time in sequential / round-robin / random interleavings, control values changed between "
+        "instants and before the first one, calls that raise (non-integer comb delay, bandwidth None) among the builds; each "
+        "instant is compared with the Lean history spec (which value of each shared object it must get, the constant "
+        "design of those values, its contract record), the number of values pulled from every shared Stream / generator is "
+        "compared after every step, and after the history every caller's object must yield what the spec says (shared "
+        "iterator: the next unread values; list / tuple: unchanged; tee hub: a further copy starts at the first value; "
+        "control: its current value); "
+        "comb filters in the time domain for delays 13..300, 2^k-1 / 2^k / 2^k+1 for 2^k = 64..4096 (thorough: ..8192) and "
+        "1000..5000 on impulse / pseudo-random dyadic signals of length delay+3 (ff) or 2*delay+3 (fb, tau); one comb filter "
+        "object called on 1-4 signals (list / tuple / Stream / generator / iterator) whose outputs are alive together and "
+        "consumed sequentially / round-robin / randomly (entry combhist); constant lowpass / highpass / resonator / gammatone "
+        "designs run for 2000-5000 (thorough 20000) samples against the C04 difference equation on the model "
+        "coefficients (entry run); a case is non-trivial when the "
+        "implementation returned a filter (no exception; history: at least one instant read and no unexpected exception); "
+        "distinct = distinct JSON case")
 TRUSTED = [
     "hand-written generic Lean transcription ALV/Model/C13.lean of the design strategies (modelled, not verified: "
     "ZFilter/Poly operator plumbing that turns the design expression into coefficients, thub/Stream broadcasting)",
     "Float evaluation of the model (Lean runtime, C libm) vs CPython floats: compared with tolerance 1e-9*(1+|x|)",
     "poles of the real filter are computed by the harness from filt.denominator (closed form, orders 1 and 2)",
+    "histories: the constant designs of the model are pure functions of their arguments, so 'a design does not depend on "
+    "earlier calls, on the type of a number that compares equal, or on which other designs exist' holds for the model by "
+    "construction (nothing to prove); that the REAL code keeps no state between calls, does not modify or pre-read the "
+    "caller's parameter objects and treats equal numbers of different types alike is what the history cases test",
+    "histories: which python objects behave as a shared iterator (Stream, Stream subclass, generator, iterator), as a "
+    "re-iterable / tee'd object (list, tuple, caller's StreamTeeHub) or as a control (ControlStream) is the table "
+    "harness/props/c13_hist.py:PY_FLAV (modelled: python iterator protocol, itertools.tee, ControlStream's generator); the "
+    "coefficients of a time-varying design at an instant are read from the Stream objects in filt.numdict / filt.dendict, one "
+    "item per instant; the contract quantities of an instant are computed by the harness from those coefficient lists",
+    "isolation (harness/props/c13_hist.py:zygote_start): a process forked before the first case runs forks one child per "
+    "request; the first 150 hist / combhist cases of a run always run there, and every case of any entry that disagrees "
+    "in-process is run again there: the reported witness is the isolated observation when the case fails alone too, and "
+    "is labelled ':only-after-earlier-cases' otherwise",
+    "entry run / combhist / long comb delays: the filter loop itself is C04's model (ALV.C04.fspec run by the driver on the "
+    "model coefficients); C13's own theorems comb_fb_eq_spec / comb_ff_eq_spec identify it with the difference equations",
 ]
 ASSUMPTIONS = [
     "cut-off / centre frequency in (0, pi), bandwidth > 0, delay >= 1, eta >= 1 (the property's quantifier)",
@@ -32,11 +66,26 @@ ASSUMPTIONS = [
     "(unconditionally for eta = 1)",
     "the branch `if not denR: denR = 1` of lowpass.z / highpass.z is unreachable with binary floats (no double has "
     "cos(x) == 0); it is covered by the theorems (cut-off pi/2 over the reals), not by the tie",
+    "histories: 'sample by sample' is read as: a design pulls exactly one value of each Stream-valued parameter for every "
+    "instant of its coefficients, when that instant is first requested, and none when it is built (otherwise a ControlStream "
+    "changed by the caller would act late, and designs sharing one Stream would not get consecutive values); the pull counts "
+    "of shared Stream / generator objects are compared after every step (signatures hist:pulls:more / fewer)",
+    "histories: iterables that are not Stream instances (generator, iterator, list, tuple) are outside the quantifier "
+    "('stream-valued'): a strategy may refuse them with a TypeError when called (today: exp(-cutoff), cos(freq) * number, "
+    "-delay / tau do); when it accepts them the coefficients must follow them sample by sample (list / tuple: every design "
+    "from the start)",
+    "histories: one shared-iterator object for BOTH arguments of one call is not generated (the order of the two pulls inside "
+    "one instant is an implementation detail); resonator.z_exp in histories uses centre frequencies in [0.6, 2.5] (complex "
+    "poles for every bandwidth <= 1; the real-pole regime is the recorded finding of the constant designs)",
+    "a call that raises (non-integer comb delay, bandwidth None): any exception kind is accepted, the shared objects must be "
+    "left as they were",
     "gains measured on the implementation are compared with tolerance 1e-8 + 64 ulp * condition number of the "
     "freq_response evaluation (sum|c_k| / |sum c_k z^k|); for gammatone.sampled with eta >= 5 at centre frequencies "
     "within ~1e-2 of 0 or pi rounding dominates and the unit-gain check becomes vacuous (histogram gammatone_gain_tolerance)",
 ]
-MANIFEST = {"technique": "Lean 4 proof over R of generic [TrigField] design definitions + Float twin tied to the implementation"}
+MANIFEST = {"technique": "Lean 4 proof over R of generic [TrigField] design definitions + Float twin tied to the implementation "
+                         "+ histories of designs sharing parameter objects (Lean state machine = state-free spec, proved) "
+                         "+ long-delay / long-run time-domain runs against the difference equations"}
 
 PI = math.pi
 LO, HI = 1e-3, PI - 1e-3
@@ -173,6 +222,10 @@ def generate(rng, tier, scale=1):
         else:
             cases.append({"entry": "stream", "design": "comb", "strategy": rng.choice(["fb", "ff"]), "delay": rng.randint(1, 5),
                           "param": [_f(rng.randint(-15, 15) / 16.0 or 0.5) for _ in range(n)], "take": n + 1})
+    # histories of designs sharing parameter objects / numbers of different types; long delays and long runs in the
+    # time domain; one comb filter object run on several signals at once (harness/props/c13_hist.py)
+    cases.extend(hist.gen_hist(rng, tier, scale))
+    cases.extend(hist.gen_long(rng, tier, scale))
     return cases
 
 
@@ -227,8 +280,29 @@ def _param(p):
 
 
 def impl(c):
+    """hist / combhist: the first ISO_ALWAYS of a run alone in a fresh process (harness/props/c13_hist.py:zygote_start),
+    everything else in this process — and again alone in a fresh process when it disagrees (see compare)"""
+    hist.zygote_start()            # fork the pristine process before this process runs its first case
+    if c["entry"] in ("hist", "combhist"):
+        hist._ISO["n"] += 1
+        if hist._ISO["n"] <= hist.ISO_ALWAYS:
+            io = hist.isolated_impl(c)
+            if io is not None:
+                return io
+    io = impl_here(c)
+    io["isolated"] = False
+    return io
+
+
+def impl_here(c):
     import audiolazy as al
     e = c["entry"]
+    if e == "hist":
+        return hist.impl_hist(c)
+    if e == "combhist":
+        return hist.impl_combhist(c)
+    if e == "run":
+        return hist.impl_run(c)
     try:
         if e in ("lowpass", "highpass"):
             cut = _fl(c["cutoff"])
@@ -239,7 +313,7 @@ def impl(c):
         if e == "comb":
             p = _fl(c["param"])
             filt = al.comb[c["strategy"]](c["delay"], p)
-            xs = [_fl(x) for x in c["xs"]]
+            xs = hist.xs_of(c)
             return {"num": [enc(float(x)) for x in filt.numerator], "den": [enc(float(x)) for x in filt.denominator],
                     "out": [enc(float(y)) for y in filt(xs)]}
         if e == "gammatone":
@@ -283,6 +357,16 @@ def impl(c):
 
 
 def request(c):
+    if c["entry"] == "hist":
+        return hist.request_hist(c)
+    if c["entry"] == "combhist":
+        return hist.request_combhist(c)
+    if c["entry"] == "run":
+        return hist.request_run(c)
+    if c["entry"] == "comb" and "sig" in c:
+        r = {k: v for k, v in c.items() if k != "sig"}
+        r["xs"] = [_f(x) for x in hist.xs_of(c)]
+        return r
     if c["entry"] != "stream":
         return dict(c)
     d, n = c["design"], c["take"]
@@ -430,6 +514,12 @@ def _check_section(name, obs, model, w, out):
 def _problems(c, io, drv):
     out = []
     e = c["entry"]
+    if e == "hist":
+        return hist.problems_hist(c, io, drv)
+    if e == "combhist":
+        return hist.problems_combhist(c, io, drv)
+    if e == "run":
+        return hist.problems_run(c, io, drv)
     name = e + "." + str(c.get("strategy", ""))
     if "err" in drv:
         if io.get("err") != drv["err"]:
@@ -446,8 +536,8 @@ def _problems(c, io, drv):
         if not _close_list(io["out"], drv["run"], TOL):
             out.append(("model", name + ":run", "output %r, difference equation on model coefficients %r" % (io["out"][:8], drv["run"][:8])))
         if not _close_list(io["out"], drv["spec"]["out"], TOL):
-            out.append(("spec", name + ":difference-equation", "output %r required %r" % (
-                [_fl(x) for x in io["out"]][:10], [_fl(x) for x in drv["spec"]["out"]][:10])))
+            out.append(("spec", name + ":difference-equation", "delay %d, %d input samples: %s" % (
+                c["delay"], len(io["out"]), hist._first_diff(io["out"], drv["spec"]["out"]))))
         if c["strategy"] == "tau":
             d = c["delay"]
             den = [_fl(x) for x in io["den"]]
@@ -495,12 +585,35 @@ def _problems(c, io, drv):
     return out
 
 
+AFTER = ":only-after-earlier-cases"
+
+
+def _problems_iso(c, io, drv):
+    """a case that disagrees in this process is run again alone in a fresh process: when it fails there too, that
+    observation is the witness (self-contained); when it does not, the library kept state from the earlier cases of
+    this run — still a violation (the designs must not depend on earlier calls), labelled as such"""
+    ps = _problems(c, io, drv)
+    if ps and io.get("isolated") is False:
+        io2 = hist.isolated_impl(c)
+        if io2 is not None:
+            ps2 = _problems(c, io2, drv)
+            if ps2:
+                io.clear()
+                io.update(io2)
+                return ps2
+            io["only_after_earlier_cases"] = True
+    if io.get("only_after_earlier_cases"):
+        ps = [(k, cl + AFTER, "only after the earlier cases of this run (agrees when run alone in a fresh process: the "
+               "library keeps state between calls): " + d) for k, cl, d in ps]
+    return ps
+
+
 def compare(c, io, drv):
-    return [(k, "%s: %s" % (cl, d)) for k, cl, d in _problems(c, io, drv)]
+    return [(k, "%s: %s" % (cl, d)) for k, cl, d in _problems_iso(c, io, drv)]
 
 
 def classify(c, io, drv):
-    ps = _problems(c, io, drv)
+    ps = _problems_iso(c, io, drv)
     spec = [p for p in ps if p[0] == "spec"]
     if spec:
         return spec[0][1]
@@ -508,12 +621,32 @@ def classify(c, io, drv):
 
 
 def nontrivial(c, io):
+    if c["entry"] == "hist":
+        return any("secs" in st for st in io["steps"]) and not any(
+            "err" in st and not (op[0] == "build" and c["dsgs"][op[1]].get("bad")) for st, op in zip(io["steps"], c["ops"]))
     return "err" not in io
 
 
 def tally(eng, c, io):
     e = c["entry"]
+    if e == "hist":
+        eng.count("entry", "hist")
+        for d in c["dsgs"]:
+            eng.count("hist_design", d["kind"] + "." + str(d.get("strategy", "")))
+        hist.tally_hist(eng, c, io)
+        return
+    if e == "run":
+        eng.count("entry", "run." + c["design"]["entry"] + "." + c["design"]["strategy"])
+        if "err" in io:
+            eng.count("impl_error", io["err"])
+        hist.tally_long(eng, c, io)
+        return
     eng.count("entry", e + ("." + c["design"] if e == "stream" else "") + "." + str(c.get("strategy", "")))
+    if e == "combhist" or (e == "comb" and "sig" in c):
+        hist.tally_long(eng, c, io)
+        if "err" in io:
+            eng.count("impl_error", io["err"])
+        return
     if "err" in io:
         eng.count("impl_error", io["err"])
         return
@@ -584,6 +717,20 @@ def _simpler(v):
 
 def shrink(c):
     e = c["entry"]
+    if e == "hist":
+        yield from hist.shrink_hist(c)
+        return
+    if e == "combhist":
+        yield from hist.shrink_combhist(c)
+        return
+    if e == "run":
+        yield from hist.shrink_run(c)
+        return
+    if e == "comb" and "sig" in c:
+        yield from hist.shrink_comb_sig(c)
+        for v in _simpler(c["param"]):
+            yield dict(c, param=_f(v))
+        return
     if e == "stream":
         for k in ("cutoff", "freq", "bandwidth", "param"):
             if isinstance(c.get(k), list) and len(c[k]) > 1:
@@ -612,6 +759,8 @@ def shrink(c):
 
 def neighbours(c):
     e = c["entry"]
+    if e in ("hist", "combhist", "run"):
+        return
     for k in ("cutoff", "freq", "bandwidth", "param"):
         if k in c and not isinstance(c[k], list):
             v = _fl(c[k])
